@@ -62,7 +62,7 @@ def one_case(ctx, case: dict):
         before = listing(d, out_name)
         pattern = None
         if case['mode'] == 'pattern' and variant in ('ok', 'fs', 'index'):
-            pattern = ('part_{index:03d}.nc', (0, len(names) - 1))
+            pattern = (case['pattern'][0], tuple(case['pattern'][1]))
         res = do_merge(d, out_name, inputs, pattern=pattern)
         after = listing(d, out_name)
         m = ctx.driver.outs([req])[0]
@@ -241,7 +241,14 @@ def gen_case_plain(rng):
     k = int(rng.integers(1, 6))
     indexed = bool(rng.random() < 0.5)
     mode = 'pattern' if rng.random() < 0.3 else 'list'
-    names = [f'part_{j:03d}.nc' for j in range(k)] if mode == 'pattern' else None
+    # numbered patterns: zero-padded, or unpadded and crossing a power of ten (then name order != numeric order)
+    fmt = 'part_{index:03d}.nc' if rng.random() < 0.4 else 'part_{index}.nc'
+    lo = int(rng.choice([0, 7, 8, 9, 98]))
+
+    def pat_names(kk):
+        return [fmt.format(index=lo + j) for j in range(kk)]
+
+    names = pat_names(k) if mode == 'pattern' else None
     variant = 'ok'
     if r < 0.08:
         variant = 'fs'
@@ -255,7 +262,7 @@ def gen_case_plain(rng):
         variant = 'assoc'
     if variant in ('fs', 'index'):
         k = max(k, 2)
-        names = [f'part_{j:03d}.nc' for j in range(k)] if mode == 'pattern' else None
+        names = pat_names(k) if mode == 'pattern' else None
     stores = gen_stores(rng, k, indexed, names=names)
     if variant == 'fs':
         j = int(rng.integers(0, k))
@@ -267,7 +274,8 @@ def gen_case_plain(rng):
         stores[j]['indexed'] = not indexed
         for n, a in enumerate(stores[j]['adds']):
             a['fid'] = None if indexed else 5000 + 10 * j + n
-    return {'stores': stores, 'mode': mode, 'cache_mb': int(rng.choice([1, 64])), 'variant': variant}
+    return {'stores': stores, 'mode': mode, 'cache_mb': int(rng.choice([1, 64])), 'variant': variant,
+            'pattern': [fmt, [lo, lo + k - 1]]}
 
 
 def main(ctx):
@@ -291,7 +299,7 @@ def replay(ctx, path):
     aeic_setup()
     j = json.loads(open(path).read())
     case = j.get('first', j).get('case', j)
-    case = {k: case[k] for k in ('stores', 'mode', 'cache_mb', 'variant')}
+    case = {k: case[k] for k in ('stores', 'mode', 'cache_mb', 'variant', 'pattern') if k in case}
     one_case(ctx, case)
     for v in ctx.violations:
         print('REPLAY-FAIL', v['clause'], v['detail'])
